@@ -929,7 +929,7 @@ func (w *Writer) writeGlobalVariable(name string, global *ir.GlobalVariable) err
 		}
 		w.Out.WriteString(";\n")
 
-	case ir.SpaceImmediate:
+	case ir.SpaceImmediate, ir.SpacePushConstant:
 		// Immediate data (push constants) — wrapped in ConstantBuffer<T>
 		// Matches Rust naga: `ConstantBuffer<Type> name: register(bN, spaceN);`
 		binding := w.getBindTarget(global.Binding)
